@@ -223,7 +223,7 @@ class Runs(Part):
         for alg in ("nsga2", "nsga2-corners", "nsga2-corners", "epsmoea", "omopso", "smpso", "psoga"):
             for _ in range(8 if ctx.quick else 80):
                 cases.append({"alg": alg.split("-")[0], "n": rng.randint(2, 12), "g": rng.randint(1, 6), "dim": rng.randint(1, 4),
-                              "pfail": rng.choice([0.0, 0.0, 0.2]), "precision": rng.choice([None, None, 1e-3]), "corner_start": alg.endswith("corners"),
+                              "pfail": rng.choice([0.0, 0.0, 0.2]), "precision": rng.choice([None, None, 1e-3]), "corner_start": alg.endswith("corners"), "edit_bounds": rng.random() < 0.3,
                               "cseed": rng.randrange(1 << 30)})
         return cases
 
@@ -274,6 +274,15 @@ class Runs(Part):
         alg.options['max_population_number'] = case["g"]
         alg.options['max_population_size'] = case["n"]
         alg.options['verbose_level'] = 0
+        if case.get("edit_bounds"):
+            # the box is narrowed IN PLACE after the algorithm object exists (a second study on the same objects): what is evaluated from now
+            # on lies in the box as it is declared now
+            for p, snap in zip(problem.parameters, params_snap):
+                lb, ub = p['bounds']
+                w = ub - lb
+                p['bounds'][0], p['bounds'][1] = lb + 0.25 * w, ub - 0.25 * w
+                snap['bounds'] = list(p['bounds'])
+            boxes = [list(p['bounds']) for p in problem.parameters]
         if case["alg"] == "nsga2" and case.get("corner_start"):
             # a user-supplied initial design on the vertices and faces of the box (screening designs start there)
             from artap.operators import CustomGenerator
